@@ -23,12 +23,40 @@ ISSUE = "issuer::SDJWTIssuer::issue_sd_jwt"
 VALUE = "serde_json::Value"
 
 
+def is_guard_fn(fx, g):
+    if g is None or g.arg_count != 1 or g.local_ty(1) != "&" + VALUE:
+        return False
+    if not (g.raw.get("ret_ty") or "").startswith("std::result::Result<(), "):
+        return False
+    return any(t2.get("resolved") == g.name for _, t2 in g.calls())
+
+
+def locate_guard(fx, fn, pidx, depth=0, chain=()):
+    """[(chain_of_(fn, call_bb), host_fn, bb, guard_fn, param_idx_in_host)]: guard calls on the claims, in fn or in crate-local
+    callees that receive the claims parameter whole (by value or reference)"""
+    out = []
+    fv = vals(fn)
+    for b, t in fn.calls():
+        if not t.get("resolved_local") or t.get("resolved") not in fx.fns:
+            continue
+        callee = fx.fns[t["resolved"]]
+        n = fv.call_node(b)
+        if is_guard_fn(fx, callee):
+            if any(x.kind == "param" and x.d["idx"] == pidx and x.fn is fn for x in walk(n.kids[0])):
+                out.append((chain, fn, b, callee, pidx))
+        elif depth < 2 and callee.kind != "closure":
+            for i, k in enumerate(n.kids):
+                p = peel(k)
+                if p.kind == "param" and p.d["idx"] == pidx and p.fn is fn and (callee.local_ty(i + 1) or "").lstrip("&").replace("mut ", "") == VALUE:
+                    out.extend(locate_guard(fx, callee, i + 1, depth + 1, chain + ((fn, b),)))
+    return out
+
+
 def find_guard(ctx, fx):
     fn = fx.fn(ISSUE)
     if fn is None:
         ctx.missing("C13.G1", ISSUE, "entry point not found")
         return None, None, None
-    fv = vals(fn)
     pidx = None
     for i in range(1, fn.arg_count + 1):
         if fn.local_user(i) == "user_claims" or (pidx is None and fn.local_ty(i) == VALUE):
@@ -36,66 +64,70 @@ def find_guard(ctx, fx):
     if pidx is None:
         ctx.missing("C13.G1", "user_claims", "issue_sd_jwt has no serde_json::Value parameter")
         return fn, None, None
-    cands = []
-    for b, t in fn.calls():
-        if not t.get("resolved_local"):
-            continue
-        g = fx.fn(t["resolved"])
-        if g is None or g.arg_count != 1 or g.local_ty(1) != "&" + VALUE:
-            continue
-        if not (g.raw.get("ret_ty") or "").startswith("std::result::Result<(), "):
-            continue
-        if not any(t2.get("resolved") == g.name for _, t2 in g.calls()):
-            continue
-        cands.append((b, t, g))
+    cands = locate_guard(fx, fn, pidx)
     if not cands:
-        ctx.missing("C13.G1", "guard call", "issue_sd_jwt does not call a recursive `&Value -> Result<()>` guard: reserved names are not checked before issuance")
+        ctx.missing("C13.G1", "guard call", "neither issue_sd_jwt nor a callee that receives the claims calls a recursive `&Value -> Result<()>` guard: reserved names are not checked before issuance")
         return fn, None, None
     return fn, cands, pidx
 
 
 def run(ctx):
     fx = ctx.facts("default")
-    fn, cands, pidx = find_guard(ctx, fx)
+    issue, cands, pidx0 = find_guard(ctx, fx)
     if not cands:
         return
+    chain, fn, b, g, pidx = cands[0]
     fv = vals(fn)
-    b, t, g = cands[0]
     node = fv.call_node(b)
     arg = peel(node.kids[0])
-    # G1: whole claims, propagated, dominates
+    # G1: whole, unmodified claims
     if arg.kind == "param" and arg.d["idx"] == pidx:
-        ctx.ok("C13.G1", fn, "guard-arg", "guard %s receives a reference to the whole `user_claims` parameter" % g.name, line=t.get("line"))
+        ctx.ok("C13.G1", fn, "guard-arg", "guard %s receives a reference to the whole, unmodified claims parameter" % g.name, line=fn.term(b).get("line"))
+    elif arg.kind == "mut":
+        by = arg.kids[1].d["term"].get("name") if arg.kids[1].kind == "call" else "?"
+        ctx.finding("C13.G1", fn, "guard-arg", "the reserved-name scan runs on claims that were already modified (mutably borrowed by `%s` before the scan): members taken out earlier are never scanned" % by, line=fn.term(b).get("line"))
     else:
-        ctx.finding("C13.G1", fn, "guard-arg", "guard %s is called on `%s`, not on the whole user_claims value" % (g.name, vstr(arg, 3)), line=t.get("line"))
-    good, bad = success_edges(fn, node)
-    if not good:
-        ctx.finding("C13.G1", fn, "guard-propagate", "the guard's Result is not tested (no `?` / match on it): an Err would be ignored", line=t.get("line"))
-    else:
-        ctx.ok("C13.G1", fn, "guard-propagate", "guard result is branched on; failure edge leads away from issuance", line=t.get("line"))
-        # failure edges must only reach Err/residual exits
-        oks = [e for e in cfg.exit_sites(fn) if e["kind"] == "Ok"]
+        ctx.finding("C13.G1", fn, "guard-arg", "guard %s is called on `%s`, not on the whole claims value" % (g.name, vstr(arg, 3)), line=fn.term(b).get("line"))
+    # every level: result branched on, Ok exits and consumers dominated
+    levels = list(chain) + [(fn, b)]
+    okall = True
+    for (lf, lb) in levels:
+        lv = vals(lf)
+        ln = lv.call_node(lb)
+        good, bad = success_edges(lf, ln)
+        t = lf.term(lb)
+        if not good:
+            ctx.finding("C13.G1", lf, "guard-propagate", "the Result of %s is not tested (no `?` / match on it): an Err would be ignored" % (t.get("resolved")), line=t.get("line"))
+            okall = False
+            continue
+        ctx.ok("C13.G1", lf, "guard-propagate", "result of %s is branched on; failure edge leads away from issuance" % t.get("resolved").split("::")[-1], line=t.get("line"))
+        oks = [e for e in cfg.exit_sites(lf) if e["kind"] == "Ok"]
         for e in oks:
-            if guarded(fn, e["bb"], good):
-                ctx.ok("C13.G1", fn, "ok-exit-dominated", "Ok exit at line %s is reachable only through the guard's success edge" % e["line"], line=e["line"])
+            if guarded(lf, e["bb"], good):
+                ctx.ok("C13.G1", lf, "ok-exit-dominated", "Ok exit at line %s is reachable only through the guard's success edge" % e["line"], line=e["line"])
             else:
-                ctx.finding("C13.G1", fn, "ok-exit-dominated", "an Ok exit is reachable without passing the guard's success edge", line=e["line"])
+                ctx.finding("C13.G1", lf, "ok-exit-dominated", "an Ok exit is reachable without passing the guard's success edge", line=e["line"])
         if not oks:
-            ctx.missing("C13.G1", "Ok exit", "issue_sd_jwt has no Ok exit")
+            ctx.missing("C13.G1", "Ok exit", "%s has no Ok exit" % lf.name)
+        lp = pidx0 if lf is issue else pidx
         nuse = 0
-        for b2, t2 in fn.calls():
-            if b2 == b:
+        for b2, t2 in lf.calls():
+            if b2 == lb:
                 continue
-            n2 = fv.call_node(b2)
-            if any(any(x.kind == "param" and x.d["idx"] == pidx and x.fn is fn for x in walk(k, pred_stop=lambda y: y is node)) for k in n2.kids):
+            n2 = lv.call_node(b2)
+            if any(any(x.kind == "param" and x.d["idx"] == lp and x.fn is lf for x in walk(k, pred_stop=lambda y: y is ln)) for k in n2.kids):
                 if t2.get("name") in ("drop", "drop_in_place"):
                     continue
                 nuse += 1
-                if guarded(fn, b2, good):
-                    ctx.ok("C13.G1", fn, "use-after-guard:%s" % t2.get("name"), "consumer of user_claims is dominated by the guard's success edge", line=t2.get("line"))
+                if guarded(lf, b2, good):
+                    ctx.ok("C13.G1", lf, "use-after-guard:%s" % t2.get("name"), "consumer of the claims is dominated by the guard's success edge", line=t2.get("line"))
+                elif lf is fn and b in cfg.reachable(lf, [b2]) and t2.get("name") in ("as_object_mut", "as_object", "ok_or", "branch", "from_residual"):
+                    # reading/borrowing before the guard in the host function: judged by the guard-arg rule above
+                    nuse -= 1
                 else:
-                    ctx.finding("C13.G1", fn, "use-before-guard:%s" % t2.get("name"), "user_claims reaches %s on a path that has not passed the guard" % (t2.get("resolved") or t2.get("callee")), line=t2.get("line"))
-        ctx.floor("C13.G1", "consumers of user_claims after the guard", nuse, 1)
+                    ctx.finding("C13.G1", lf, "use-before-guard:%s" % t2.get("name"), "the claims reach %s on a path that has not passed the guard" % (t2.get("resolved") or t2.get("callee")), line=t2.get("line"))
+        if lf is fn:
+            ctx.floor("C13.G1", "consumers of the claims after the guard", nuse, 1)
     judge_guard(ctx, fx, g)
     table_agreement(ctx, fx, g)
 
